@@ -24,10 +24,11 @@ run_demo() { (cd $DEMO && CARGO_TARGET_DIR=$TGT/demo timeout 900 cargo test --of
 echo "== demo with change" >> $LOG
 run_demo > /tmp/seed_${ID}_demo_with.log 2>&1; cat /tmp/seed_${ID}_demo_with.log >> $LOG
 if grep -qE "error(\[|:) .*(could not compile|failed to load|mismatched)" /tmp/seed_${ID}_demo_with.log; then WITH=broken; elif grep -qE "test result: FAILED|error: test failed" /tmp/seed_${ID}_demo_with.log; then WITH=fail; else WITH=pass; fi
-(cd $WT && git stash -q)
+# (git stash is shared between worktrees of one repository: never use it here)
+(cd $WT && git apply -R $OUT/patch.diff) || { echo "RESULT id=$ID cannot revert patch" | tee -a $LOG; exit 2; }
 echo "== demo without change" >> $LOG
 run_demo > /tmp/seed_${ID}_demo_clean.log 2>&1; cat /tmp/seed_${ID}_demo_clean.log >> $LOG
 if grep -qE "could not compile|failed to load" /tmp/seed_${ID}_demo_clean.log; then WITHOUT=broken; elif grep -qE "test result: FAILED|error: test failed" /tmp/seed_${ID}_demo_clean.log; then WITHOUT=fail; else WITHOUT=pass; fi
-(cd $WT && git stash pop -q)
+(cd $WT && git apply $OUT/patch.diff)
 echo "RESULT id=$ID suite_other_failures=$FAILED demo_with_change=$WITH demo_without_change=$WITHOUT" | tee -a $LOG
 rm -rf $TGT
